@@ -255,7 +255,7 @@ struct W1 {
         // damp_x = damping * dt / (lightest node mass): lets plans reach the heavily damped regime (> 1: the friction term reverses the momentum) whatever the meshes weigh
         if (pl.p.count("damp_x")) { double mmin = 1e300; for (auto& c : T.cells) if (!c->is_static()) mmin = std::min(mmin, c->get_node_mass()); if (mmin < 1e300 && mmin > 0) T.params.damping_coefficient_ = pl.get("damp_x") * mmin / T.params.time_step_; }
 #endif
-        for (auto& c : T.cells) { ever_ids.insert(c->get_id()); }
+        // (the ids the cells arrive with are replaced by the solver's constructor: only ids seen from there on count as used)
         int team = pl.geti("team", 1);
         S = std::make_unique<sim_solver>(T.params, T.cells, team, true, false);
         for (auto& c : S->cells()) { ever_ids.insert(c->get_id()); max_id_seen = std::max(max_id_seen, c->get_id()); if (monitors) check_random_props(*c, "after initialisation"); }
@@ -373,7 +373,9 @@ Plan gen_w1(uint64_t seed, const std::string& tier, const std::string& focus) {
         case 0: break;                                                     // no growth
         case 1: pl.p["growth"] = r.uni(1e-11, 5e-11); pl.p["div_vol"] = V0 * r.uni(0.5, 1.05); break;     // divisions soon
         case 2: pl.p["growth"] = -r.uni(2e-11, 8e-11); pl.p["min_vol"] = V0 * r.uni(0.5, 0.95); break;     // shrink -> removal
-        case 3: pl.p["growth"] = r.uni(1e-11, 4e-11); pl.p["growth_sigma"] = pl.p["growth"] * r.uni(0.1, 0.5); pl.p["div_vol"] = V0 * r.uni(0.6, 1.05); pl.p["div_sigma"] = pl.p["div_vol"] * r.uni(0.01, 0.1); break;
+        case 3: pl.p["growth"] = r.uni(1e-11, 4e-11); pl.p["growth_sigma"] = pl.p["growth"] * r.uni(0.1, 0.5); pl.p["div_vol"] = V0 * r.uni(0.6, 1.05); pl.p["div_sigma"] = pl.p["div_vol"] * r.uni(0.01, 0.1);
+                if (r.coin(0.3)) { pl.p["growth"] = -r.uni(1e-11, 6e-11); pl.p["growth_sigma"] = -pl.p["growth"] * r.uni(0.03, 0.6); pl.p["min_vol"] = V0 * r.uni(0.4, 0.9); }   // a drawn growth rate may be negative, with or without the whole band below zero
+                break;
         case 4: pl.p["growth"] = r.coin(0.5) ? r.uni(1e-11, 4e-11) : -r.uni(1e-12, 2e-11); pl.p["max_pressure"] = r.uni(5, 500); pl.p["min_vol"] = V0 * 0.3; break;
     }
     if (focus == "C15") { pl.p.erase("div_vol"); pl.p.erase("div_sigma"); }   // sibling daughters share their interface and interact: divisions on teams are compared in W3 (population after cell_divider::run)
@@ -381,6 +383,7 @@ Plan gen_w1(uint64_t seed, const std::string& tier, const std::string& focus) {
     if (r.coin(0.2)) pl.p["area_elasticity"] = 1e-15;
     if (r.coin(0.2)) pl.p["bending"] = 2e-18;
     if (r.coin(0.2)) pl.p["angle_reg"] = 1e-18;
+    if (r.coin(0.3)) pl.p["id_scheme"] = r.range(1, 2);
     pl.p["clock"] = (focus == "C15") ? 0 : (int)r.below(3);
     draw_schedule(pl, r, thorough ? 16 : 8);
     if (focus == "tsan") { pl.p["free_running"] = 1; pl.p["team"] = r.range(2, 8); pl.p["diff"] = 0; }
